@@ -11,11 +11,11 @@ def parse_kv(s):
 
 
 class Result:
-    __slots__ = ('family', 'p', 'o', 'case', 'impl', 'model_or', 'impl_or', 'same', 'raw', 'model_line')
+    __slots__ = ('family', 'p', 'o', 'case', 'impl', 'model_or', 'impl_or', 'same', 'raw', 'model_line', 'partial')
 
     def __init__(self, family, p, o, case, impl):
         self.family = family; self.p = p; self.o = o; self.case = case; self.impl = impl
-        self.model_or = {}; self.impl_or = {}; self.same = None; self.raw = None; self.model_line = None
+        self.model_or = {}; self.impl_or = {}; self.same = None; self.raw = None; self.model_line = None; self.partial = None
 
 
 def make_cases(rng, n, rules, families=None, lowprec=0.0, equal_ranks=0.3, rational_meek=0.0, options_fn=None):
@@ -46,15 +46,21 @@ def evaluate(cases, limit=20.0):
         case = gen.case_line(p, o)
         if isinstance(il, tuple):
             il = 'CRASH Timeout'
+        partial = None
+        if '\t' in il:
+            il, partial = il.split('\t', 1)
         r = Result(fam, p, o, case, il)
+        r.partial = partial
         results.append(r)
-        ins.append('COUNT ' + case + ' @@ ' + il)
+        ins.append('COUNT ' + case + ' @@ ' + (partial or il))
     outs = run_driver_parallel(ins)
     for r, g in zip(results, outs):
         r.raw = g
         m = ORACLE_RE.match(g)
         if m:
             r.model_or = parse_kv(m.group(1)); r.impl_or = parse_kv(m.group(2)); r.same = (m.group(3) == '1')
+            if r.partial is not None:       # crashed run: the outcome class is what is compared with the model
+                r.same = (r.model_or.get('CRASH') == r.impl.split(' ', 1)[1])
         else:
             r.same = False
     return results
